@@ -559,13 +559,16 @@ func ruleThreadCtx(c *Ctx) {
 			cl, ok := in.(*ssa.Call)
 			if ok && cl.Call.StaticCallee() == nil && !cl.Call.IsInvoke() {
 				// a call through a function value: the cancel function
-				if _, isLoad := loadsField(cl.Call.Value, cancelF); isLoad {
+				if owner, isLoad := loadsField(cl.Call.Value, cancelF); isLoad {
 					found = true
 					zero := false
 					for _, cd := range g.expandAnd(g.CondsAtInstr(cl)) {
 						if b, ok := cd.V.(*ssa.BinOp); ok {
-							_, l1 := loadsField(b.X, childF)
-							_, l2 := loadsField(b.Y, childF)
+							// the count that is tested is the count of the thread whose context is released
+							o1, l1 := loadsField(b.X, childF)
+							o2, l2 := loadsField(b.Y, childF)
+							l1 = l1 && o1 == owner
+							l2 = l2 && o2 == owner
 							k1, c1 := constInt(b.X)
 							k2, c2 := constInt(b.Y)
 							if (l1 && c2 && k2 == 0 || l2 && c1 && k1 == 0) && ((b.Op == token.EQL && cd.Sense) || (b.Op == token.NEQ && !cd.Sense) || (b.Op == token.LEQ && cd.Sense && l1) || (b.Op == token.GTR && !cd.Sense && l1)) {
